@@ -107,6 +107,11 @@ def run(ctx):
         cases.append(lines)
         meta.append(("multi", p, s, rec, None))
 
+    # the integrity layer in front of the user's Persistence: a present record of any length is checked, only an absent one is nil
+    for p, s, rec in records[:12]:
+        cases.append(["rload 0 -", "rload 1 " + C.hexs(rec)] + ["rload 1 " + (C.hexs(rec[:n]) if n else "-") for n in range(min(len(rec), 14))])
+        meta.append(("rload", p, s, rec, None))
+
     impl, model = C.run_cases(ctx, "pure", cases)
     for (kind, p, s, rec, arg), io, mo, case in zip(meta, impl, model, cases):
         d = C.first_diff(io, mo)
@@ -131,6 +136,15 @@ def run(ctx):
                 c0, o0 = bad[0] if bad else (case[0], "<missing>")
                 v.violation("C15:single-byte", "single-byte damage at position %d of a %d-byte record not detected: %s -> %s"
                             % (arg, len(rec), c0[:100], o0[:60]), {"script": [c0], "impl": [o0], "original": rec.hex()})
+        elif kind == "rload":
+            stats["rload"] = stats.get("rload", 0) + len(case)
+            want = ["rload absent", "rload ok " + C.hexs(p)] + ["rload err"] * (len(case) - 2)
+            if io != want:
+                k = [j for j in range(len(want)) if j >= len(io) or io[j] != want[j]][0]
+                v.violation("C15:load-layer", "Load through the integrity layer: `%s` gives `%s`, want `%s`" % (case[k][:80], io[k] if k < len(io) else "<missing>", want[k][:60]),
+                            {"script": [case[k]], "impl": io[k:k + 1], "want": want[k]})
+            elif d:
+                v.broken_tie("ruggedPersistence.Load differs from model: impl %s model %s" % (d[1], d[2]), {"script": case, "impl": io, "model": mo})
         elif kind == "multi":
             stats["multi_byte_tried"] += len(case)
             stats["multi_byte_undetected"] += sum(1 for o in io if o != "dec err")
